@@ -27,9 +27,22 @@ type chainSpec struct {
 	// "foreign" = a dereferencable foreign value without further links
 	sibling string
 	hidden  bool // the received activity carries bto / bcc (they must survive forwarding)
+	// diamond, if set, replaces the linear chain: two branches of different length (kA / kB embedded
+	// intermediate values below the links linkA / linkB of the activity) converge on ONE shared value
+	// S (given by IRI or embedded) whose inReplyTo is the owned value
+	diamond *diamondSpec
+}
+
+type diamondSpec struct {
+	kA, kB       int
+	linkA, linkB string
+	sForm        string // iri | embedded
 }
 
 func (c chainSpec) String() string {
+	if d := c.diamond; d != nil {
+		return fmt.Sprintf("[diamond %s:%d-embedded + %s:%d-embedded -> shared %s -> owned=%v]", d.linkA, d.kA, d.linkB, d.kB, d.sForm, c.owned)
+	}
 	var s []string
 	for _, h := range c.hops {
 		s = append(s, h.link+":"+h.form)
@@ -49,6 +62,41 @@ var linkNames = []string{"inReplyTo", "object", "target", "tag"}
 // build attaches the chain to act and registers remote documents; it returns the 1-based hop
 // count at which an owned value is reachable (0 = never).
 func (c chainSpec) build(act M, remote map[string]M) int {
+	if d := c.diamond; d != nil {
+		sID := "https://r1.example/chain/shared"
+		end := "https://r1.example/chain/end"
+		if c.owned {
+			end = "https://l.example/n/owned-end"
+		}
+		shared := Emb("Add", sID, "summary", "shared", "inReplyTo", end)
+		mkBranch := func(k int, tag string) interface{} {
+			var v interface{} = sID
+			if d.sForm == "embedded" {
+				v = deepCopy(shared)
+			}
+			for i := k; i >= 1; i-- {
+				v = Emb("Add", fmt.Sprintf("https://r1.example/chain/%s%d", tag, i), "summary", fmt.Sprintf("%s level %d", tag, i), "inReplyTo", v)
+			}
+			return v
+		}
+		act[d.linkA] = mkBranch(d.kA, "a")
+		act[d.linkB] = mkBranch(d.kB, "b")
+		if d.sForm == "iri" {
+			doc := M{"@context": AS}
+			for k, v := range shared {
+				doc[k] = v
+			}
+			remote[sID] = doc
+		}
+		if !c.owned {
+			return 0
+		}
+		k := d.kA
+		if d.kB < k {
+			k = d.kB
+		}
+		return k + 2 // S sits at level k+1, the owned value at k+2
+	}
 	cur := act
 	reach := 0
 	broken := false
@@ -183,6 +231,22 @@ func c17chains(maxDepth int) []chainSpec {
 				chainSpec{hops: []hop{{"inReplyTo", "iri"}, {"tag", lf}}, owned: owned})
 		}
 	}
+	// diamonds: one fetched (or embedded) value referenced on two paths of different length
+	for _, sf := range []string{"iri", "embedded"} {
+		for _, links := range [][2]string{{"object", "target"}, {"target", "object"}, {"inReplyTo", "tag"}, {"tag", "inReplyTo"}} {
+			for _, ks := range [][2]int{{2, 1}, {1, 2}, {2, 0}, {0, 2}, {3, 1}, {1, 3}, {1, 1}} {
+				if ks[0] > maxDepth || ks[1] > maxDepth {
+					continue
+				}
+				for _, owned := range []bool{true, false} {
+					if !owned && ks != [2]int{2, 1} {
+						continue
+					}
+					out = append(out, chainSpec{owned: owned, diamond: &diamondSpec{kA: ks[0], kB: ks[1], linkA: links[0], linkB: links[1], sForm: sf}})
+				}
+			}
+		}
+	}
 	out = append(out, chainSpec{hops: []hop{{"object", "embedded"}}, owned: true, hidden: true},
 		chainSpec{hops: []hop{{"inReplyTo", "iri"}, {"object", "embedded"}}, owned: true, hidden: true})
 	return out
@@ -240,7 +304,7 @@ func C17(tier string) int {
 			}
 		}
 	}
-	res.Rule = fmt.Sprintf("activities whose to/cc/audience hold every sequence of <= %d entries over {owned Collection, owned OrderedCollection, foreign collection, owned non-collection, remote actor}; reply chains of depth 0..%d through inReplyTo/object/target/tag with every embedded / dereferenced-IRI form per link, the final value owned or not, plus chains broken by a missing or unknown-type document, and chains ending in a Link-derived value (Mention named by href only; Link whose id and href disagree, the owned one being the id or only the href); depth limit %v; filter {all, first only, none, last only (filtering the slice it is handed in place), all (reversing it in place)}; delivery histories {A, AA, AB, BAA, ABA} over two local inboxes; %d histories, each a sequence of real requests on one application state; oracle: forwarded (once, on the first delivery) iff an owned (Ordered)Collection is addressed and an owned value lies within the limit; recipients are the members of exactly the collections the filter returned; payload equals the received body; the activity is recorded exactly once; plus 16 activities that have a default side effect (Create by IRI / embedded, Update, Delete, Like, Announce, Add, Remove, Follow, Accept, Reject, Undo, Block), with and without application hooks, meeting the three conditions: forwarded once, payload and recorded copy equal to the received activity; states = distinct application states reached, transitions = requests", maxAddr, maxDepth, limits, len(cases))
+	res.Rule = fmt.Sprintf("activities whose to/cc/audience hold every sequence of <= %d entries over {owned Collection, owned OrderedCollection, foreign collection, owned non-collection, remote actor}; reply chains of depth 0..%d through inReplyTo/object/target/tag with every embedded / dereferenced-IRI form per link, the final value owned or not, plus chains broken by a missing or unknown-type document, diamonds (one fetched or embedded value referenced on two paths of different length, the owned value below it), and chains ending in a Link-derived value (Mention named by href only; Link whose id and href disagree, the owned one being the id or only the href); depth limit %v; filter {all, first only, none, last only (filtering the slice it is handed in place), all (reversing it in place)}; delivery histories {A, AA, AB, BAA, ABA} over two local inboxes; %d histories, each a sequence of real requests on one application state; oracle: forwarded (once, on the first delivery) iff an owned (Ordered)Collection is addressed and an owned value lies within the limit; recipients are the members of exactly the collections the filter returned; payload equals the received body; the activity is recorded exactly once; plus 16 activities that have a default side effect (Create by IRI / embedded, Update, Delete, Like, Announce, Add, Remove, Follow, Accept, Reject, Undo, Block), with and without application hooks, meeting the three conditions: forwarded once, payload and recorded copy equal to the received activity; states = distinct application states reached, transitions = requests", maxAddr, maxDepth, limits, len(cases))
 	res.Assumptions = []string{"locks are counted, not blocking (a collection addressed twice is C09's known finding)", "a dereferenced document that is not JSON aborts the search with an error and is left to C11"}
 	var mu sync.Mutex
 	states := map[uint64]struct{}{}
